@@ -122,15 +122,16 @@ extern "C" size_t LLVMFuzzerCustomMutator(uint8_t* data, size_t size, size_t max
     static const char* types[] = {"INTE", "REAL", "DOUB", "LOGI", "CHAR", "MESS", "C008", "C012", "C000", "C099", "C001", "X231", "C0AB"};
     switch (pick(9)) {
     case 0:     // leading marker of a data block
-        if (!a.blocks.empty()) { uint8_t* q = data + a.blocks[pick(a.blocks.size())]; put32(q, be32(q) + deltas[pick(8)]); return size; }
+        if (!a.blocks.empty()) { uint8_t* q = data + a.blocks[pick(a.blocks.size())]; put32(q, int32_t(uint32_t(be32(q)) + uint32_t(deltas[pick(8)]))); return size; }
         break;
     case 1:     // trailing marker of a data block
-        if (!a.blocks.empty()) { uint8_t* q = data + a.blocks[pick(a.blocks.size())]; uint8_t* t = q + 4 + be32(q); put32(t, be32(t) + deltas[pick(8)]); return size; }
+        if (!a.blocks.empty()) { uint8_t* q = data + a.blocks[pick(a.blocks.size())]; uint8_t* t = q + 4 + be32(q); put32(t, int32_t(uint32_t(be32(t)) + uint32_t(deltas[pick(8)]))); return size; }
         break;
     case 2: {   // element count
         static const int32_t counts[] = {0, 1, -1, 105, 106, 1000, 1001, 2147483647, -2147483647 - 1, 65536};
         const size_t c = pick(14);
-        put32(data + a.hdr + 12, c < 10 ? counts[c] : (c < 12 ? a.count + deltas[pick(8)] : a.count * 2));
+        const long long wide = c < 10 ? counts[c] : (c < 12 ? (long long)a.count + deltas[pick(8)] : (long long)a.count * 2);
+        put32(data + a.hdr + 12, int32_t(uint32_t(wide & 0xffffffffLL)));
         return size;
     }
     case 3:     // type string
